@@ -579,4 +579,99 @@ theorem span_of_final (base : Int) (c : Cfg) (h : Spaced base c.log ∧ c.last =
     base + (c.log.map (·.2)).sum ≤ c.last := by
   rw [h.2]; exact spaced_span h.1
 
+/-! ## a reload while a request sleeps: the list / lookup facts behind `chainReload_ctls` -/
+
+/-- the controllers `l` with the timestamps `A` (the form `chainReload` uses) -/
+def zipLast {ρ : Type} (l : List (Ctl ρ)) (A : List Int) : List (Ctl ρ) :=
+  (l.zip A).map fun (c, a) => { c with last := a }
+
+theorem zipLast_nil_left {ρ : Type} (A : List Int) : zipLast ([] : List (Ctl ρ)) A = [] := by simp [zipLast]
+theorem zipLast_nil_right {ρ : Type} (l : List (Ctl ρ)) : zipLast l [] = [] := by simp [zipLast]
+theorem zipLast_cons {ρ : Type} (c : Ctl ρ) (l : List (Ctl ρ)) (a : Int) (A : List Int) :
+    zipLast (c :: l) (a :: A) = { c with last := a } :: zipLast l A := by simp [zipLast]
+
+theorem zipLast_append {ρ : Type} (l1 l2 : List (Ctl ρ)) (A1 A2 : List Int) (h : l1.length = A1.length) :
+    zipLast (l1 ++ l2) (A1 ++ A2) = zipLast l1 A1 ++ zipLast l2 A2 := by
+  simp [zipLast, List.zip_append h]
+
+theorem mem_zipLast_id {ρ : Type} (l : List (Ctl ρ)) (A : List Int) (x : Ctl ρ) (hx : x ∈ zipLast l A) :
+    x.id ∈ l.map (·.id) := by
+  induction l generalizing A with
+  | nil => simp [zipLast] at hx
+  | cons c cs ih =>
+    cases A with
+    | nil => simp [zipLast] at hx
+    | cons a as =>
+      rw [zipLast_cons, List.mem_cons] at hx
+      rcases hx with rfl | hx
+      · simp
+      · simpa using Or.inr (by simpa using ih as hx)
+
+theorem setLast_rule {ρ : Type} (upd : List (Nat × Int)) (c : Ctl ρ) : (Ctl.setLast upd c).rule = c.rule := by
+  unfold Ctl.setLast; split <;> rfl
+
+theorem lookup_zip_none (ks : List Nat) (B : List Int) (k : Nat) (h : k ∉ ks) : (ks.zip B).lookup k = none := by
+  induction ks generalizing B with
+  | nil => simp
+  | cons k' ks ih =>
+    cases B with
+    | nil => simp
+    | cons b bs =>
+      have hne : (k == k') = false := by
+        have : k ≠ k' := fun e => h (by simp [e])
+        simpa using this
+      rw [List.zip_cons_cons, List.lookup_cons, hne]
+      exact ih bs (fun hk => h (List.mem_cons_of_mem _ hk))
+
+theorem setLast_of_not_mem {ρ : Type} (ks : List Nat) (B : List Int) (c : Ctl ρ) (h : c.id ∉ ks) :
+    Ctl.setLast (ks.zip B) c = c := by
+  unfold Ctl.setLast; rw [lookup_zip_none ks B c.id h]
+
+/-- controllers whose identity is not among the updated ones are left alone -/
+theorem map_setLast_of_disjoint {ρ : Type} (ks : List Nat) (B : List Int) (l : List (Ctl ρ))
+    (h : ∀ x ∈ l, x.id ∉ ks) : l.map (Ctl.setLast (ks.zip B)) = l := by
+  conv_rhs => rw [← List.map_id l]
+  exact List.map_congr_left fun x hx => by simpa using setLast_of_not_mem ks B x (h x hx)
+
+/-- updating by identity with the timestamps `B` of exactly these controllers gives these controllers with `B` -/
+theorem map_setLast_self {ρ : Type} (suf : List (Ctl ρ)) (A B : List Int) (hn : (suf.map (·.id)).Nodup)
+    (hA : A.length = suf.length) (hB : B.length = suf.length) :
+    (zipLast suf A).map (Ctl.setLast ((suf.map (·.id)).zip B)) = zipLast suf B := by
+  induction suf generalizing A B with
+  | nil => simp [zipLast]
+  | cons c cs ih =>
+    cases A with
+    | nil => simp at hA
+    | cons a as =>
+      cases B with
+      | nil => simp at hB
+      | cons b bs =>
+        simp only [List.map_cons, List.nodup_cons, List.length_cons, Nat.add_right_cancel_iff] at hn hA hB
+        rw [zipLast_cons, zipLast_cons, List.map_cons]
+        simp only [List.map_cons, List.zip_cons_cons]
+        congr 1
+        · unfold Ctl.setLast
+          simp [List.lookup_cons]
+        · -- the tail: the head entry of the update list never matches
+          have : (zipLast cs as).map (Ctl.setLast ((c.id, b) :: (cs.map (·.id)).zip bs)) =
+              (zipLast cs as).map (Ctl.setLast ((cs.map (·.id)).zip bs)) := by
+            apply List.map_congr_left
+            intro x hx
+            have hx' := mem_zipLast_id cs as x hx
+            have hne : (x.id == c.id) = false := by
+              have : x.id ≠ c.id := fun e => hn.1 (e ▸ hx')
+              simpa using this
+            unfold Ctl.setLast
+            rw [List.lookup_cons, hne]
+          rw [this]
+          exact ih as bs hn.2 hA hB
+
+theorem chainHead_length (now : Int) (cs : List (Int × Int × Req)) : (chainHead now cs).1.length = cs.length := by
+  induction cs with
+  | nil => simp [chainHead]
+  | cons c r ih =>
+    obtain ⟨maxQ, last, q⟩ := c
+    unfold chainHead
+    split <;> simp [ih]
+
 end Sentinel.C10
